@@ -587,6 +587,103 @@ def gen_tautomer(rng):
     return m
 
 
+def small_ring_fusions():
+    """exhaustive family: an aromatic core (benzene, pyridine, naphthalene, pyrrole, furan, thiophene) condensed at every
+    distinct edge with one further ring of 3, 4, 5, 7 or 8 atoms (carbon), with EVERY placement of double bonds in which all
+    core atoms except a five-ring hetero atom carry exactly one double bond and the atoms of the new ring carry at most
+    one (unmatched new atoms are sp3 CH2): cyclopropa-, cyclobuta(diene)-, cyclopenta-, cyclohepta-, cycloocta-arenes in
+    all their Kekulé forms. Yields (name, MoleculeContainer)."""
+    cores = [
+        ('benzo', 6, {}, [(1, 2)]),
+        ('pyrido', 6, {1: 'N'}, [(2, 3), (3, 4)]),
+        ('naphtho', 10, {}, [(1, 2), (2, 3)]),
+        ('pyrrolo', 5, {1: 'N'}, [(2, 3), (3, 4)]),
+        ('furo', 5, {1: 'O'}, [(2, 3), (3, 4)]),
+        ('thieno', 5, {1: 'S'}, [(2, 3), (3, 4)]),
+    ]
+    for cname, n_core, hetero, fusions in cores:
+        if n_core == 10:
+            core_edges = [(1, 2), (2, 3), (3, 4), (4, 5), (5, 6), (6, 1), (5, 7), (7, 8), (8, 9), (9, 10), (10, 6)]
+            # renumber so that (1,2) and (2,3) are outer edges of one ring
+        else:
+            core_edges = [(i, i % n_core + 1) for i in range(1, n_core + 1)]
+        donor = {v for v, el in hetero.items() if n_core == 5}
+        for fe in fusions:
+            for size in (3, 4, 5, 7, 8):
+                new = list(range(n_core + 1, n_core + size - 1))
+                path = [fe[1]] + new + [fe[0]]
+                edges = core_edges + [(path[k], path[k + 1]) for k in range(len(path) - 1)]
+                verts = list(range(1, n_core + size - 1))
+                must = [v for v in range(1, n_core + 1) if v not in donor]
+                seen_m = set()
+
+                def rec(i, used, chosen):
+                    if i == len(edges):
+                        if all(v in used for v in must):
+                            yield frozenset(chosen)
+                        return
+                    a, b = edges[i]
+                    yield from rec(i + 1, used, chosen)
+                    if a not in used and b not in used and a not in donor and b not in donor:
+                        yield from rec(i + 1, used | {a, b}, chosen + [edges[i]])
+                for mset in rec(0, frozenset(), []):
+                    if mset in seen_m:
+                        continue
+                    seen_m.add(mset)
+                    orders = {e: (2 if e in mset else 1) for e in edges}
+                    elements = {v: hetero.get(v, 'C') for v in verts}
+                    try:
+                        m = molgen.from_edges(edges, elements, orders, {})
+                    except Exception:
+                        continue
+                    if m.check_valence():
+                        continue
+                    yield f'{cname}-{fe[0]}{fe[1]}-{size}ring', m
+
+
+def phenylenes():
+    """exhaustive family: two aromatic cores (benzene, pyridine, thiophene, pyrrole) joined by two bonds into a four-membered
+    ring (biphenylene and its hetero analogues), in every Kekulé form (all core atoms except five-ring hetero atoms carry
+    exactly one double bond; the linking bonds may be single or double). Yields (name, MoleculeContainer)."""
+    cores = [('benzene', 6, {}, (1, 2)), ('pyridine', 6, {1: 'N'}, (2, 3)), ('pyridine34', 6, {1: 'N'}, (3, 4)),
+             ('thiophene', 5, {1: 'S'}, (3, 4)), ('pyrrole', 5, {1: 'N'}, (2, 3))]
+    for i, (na, sa, ha, fa) in enumerate(cores):
+        for nb_, sb, hb, fb in cores[i:]:
+            ea = [(k, k % sa + 1) for k in range(1, sa + 1)]
+            eb = [(sa + k, sa + k % sb + 1) for k in range(1, sb + 1)]
+            link = [(fa[0], sa + fb[1]), (fa[1], sa + fb[0])]
+            edges = ea + eb + link
+            elements = {v: 'C' for v in range(1, sa + sb + 1)}
+            donor = set()
+            for v, el in ha.items():
+                elements[v] = el
+                if sa == 5:
+                    donor.add(v)
+            for v, el in hb.items():
+                elements[sa + v] = el
+                if sb == 5:
+                    donor.add(sa + v)
+            must = [v for v in elements if v not in donor]
+
+            def rec(k, used, chosen):
+                if k == len(edges):
+                    if all(v in used for v in must):
+                        yield list(chosen)
+                    return
+                a, b = edges[k]
+                yield from rec(k + 1, used, chosen)
+                if a not in used and b not in used and a not in donor and b not in donor:
+                    yield from rec(k + 1, used | {a, b}, chosen + [edges[k]])
+            for mset in rec(0, frozenset(), []):
+                orders = {e: (2 if e in mset else 1) for e in edges}
+                try:
+                    m = molgen.from_edges(edges, elements, orders, {})
+                except Exception:
+                    continue
+                if not m.check_valence():
+                    yield f'{na}+{nb_}', m
+
+
 def polyhexes(n_max):
     """free polyhexes (benzenoid skeletons) with up to `n_max` hexagons, exhaustive: sets of cells of the hexagonal lattice
     grown cell by cell, one representative per class under the 12 lattice symmetries. Yields lists of axial cells."""
@@ -1528,13 +1625,20 @@ def correspond(ctx):
     for size in (5, 6):
         for name, m in hetero_monocycles(size):
             mols.append((f'heterocycle{size}:{name}', m))
+    fus = list(small_ring_fusions())
+    if ctx.quick:
+        fus = rng.sample(fus, min(len(fus), 200))
+    for j, (name, m) in enumerate(fus):
+        mols.append((f'small-ring-fusion:{name}#{j}', m))
+    for j, (name, m) in enumerate(phenylenes()):
+        mols.append((f'phenylene:{name}#{j}', m))
     mols += molgen.corpus(rng, 280 if ctx.quick else 4200)
-    n_gen = 350 if ctx.quick else 2500
+    n_gen = 300 if ctx.quick else 2500
     for i in range(n_gen):
         m = gen_kekule(rng)
         if m is not None:
             mols.append((f'gen-kekule[{i}]', m))
-    for i in range(420 if ctx.quick else 5000):
+    for i in range(360 if ctx.quick else 5000):
         m = gen_tautomer(rng)
         if m is not None:
             mols.append((f'gen-tautomer[{i}]', m))
